@@ -1,6 +1,7 @@
 (* Runner for the zarith-backed extraction of the local-grid model (see coq/Extract/ExtractCoreFast.v).
    usage: corefast <file>   with lines
      lg <id> <rule> <order> <d> <outs> pidx: i.. vals: v.. coef: c.. xs: x.. ys: y..
+     sg <id> <rule> <d> <depth> pidx: i..      (the point set of makeLocalPolynomialGrid vs Model.StdGrid.std_grid; prints sg <id> n=<model points> same=<b>)
    prints: lg <id> cert=<b> complete=<b> n=<points> coeferr=.. evalerr=.. nodeerr=.. (errors relative to max(1,max|vals|)) *)
 open Common
 module ZA = Z
@@ -59,6 +60,15 @@ let () =
                  nodeerr := Float.max !nodeerr (Float.abs dv /. scale)) pts
            done;
            Printf.printf "lg %s cert=%b complete=%b n=%d coeferr=%h evalerr=%h nodeerr=%h\n%!" id cert complete n !coeferr !evalerr !nodeerr
+         with e -> Printf.printf "MISMATCH %s runner-exception %s\n%!" id (Printexc.to_string e))
+      | "sg" :: id :: rule :: dd :: depth :: rest ->
+        (try
+           let m = keyed rest and d = int_of_string dd in
+           let rec nat_of_int n = if n <= 0 then O else S (nat_of_int (n - 1)) in
+           let model = std_grid (rule_of rule) (nat_of_int d) (z_of_int (int_of_string depth)) in
+           let impl = idxs d (get "pidx:" m) in
+           let key l = List.sort compare (List.map (fun p -> List.map ZA.to_int p) l) in
+           Printf.printf "sg %s n=%d same=%b\n%!" id (List.length model) (key model = key impl)
          with e -> Printf.printf "MISMATCH %s runner-exception %s\n%!" id (Printexc.to_string e))
       | "sq" :: id :: dd :: outs :: rest ->
         (* sequence grid: sq <id> <d> <outs> nodes: x0 x1 .. pidx: i.. vals: v.. coef: c..   (exact Newton surpluses vs the implementation) *)
